@@ -1,10 +1,10 @@
 SPECIFICATION GSpec
 CONSTANTS
-  Notifiers <- MCNotifiers
+  Notifiers <- MCNotifiers3
   Keys <- MCKeys
   MaxCalls = 3
-  MaxPubs = 2
-  InFlight = FALSE
+  MaxPubs = 1
+  InFlight = TRUE
 VIEW EdgeView
-INVARIANT EmitAll
+INVARIANT EmitFlight
 CHECK_DEADLOCK FALSE
